@@ -703,7 +703,7 @@ static void sweep_c16(Obj &o, const Case &c, XorShift &x) {
 
 // ------------------------------------------------------------------ object life cycle
 static StringDictionary *do_build(const Case &c) {
-  if (cur->skip("build")) return nullptr;
+  if (cur->skip("build")) { cur->conclusive = false; cur->inconclusive_reason = "excluded-by-known-finding"; return nullptr; }
   StringDictionary *d = nullptr;
   obj_dead = false;
   lib([&] { d = build_dict(c.p, c.S); });
@@ -775,7 +775,8 @@ static void decode_case(Src &s, Case &c) {
   if (cfg.stratum >= 0) { kind = (cfg.stratum / N_CLASSES) % K_COUNT; nclass = cfg.stratum % N_CLASSES; }
   if (cfg.thorough && nclass == 5 && s.below(4) == 0) nclass = 6;
   c.p.kind = kind;
-  c.S = gen_strings(s, nclass, cfg.thorough, c.gi);
+  bool table_kind = kind == K_HHTFC;  // F04/F07: explored where it works
+  c.S = gen_strings(s, nclass, cfg.thorough, c.gi, table_kind);
   bool clamp = cfg.prop == "C12" || cfg.prop == "C07";
   bool memalloc = cfg.prop == "C07";
   gen_params(s, c.p, c.S.size(), c.gi.total, clamp, memalloc);
@@ -789,6 +790,8 @@ static void case_features(const Case &c) {
   if (n == 1) f.insert("n1");
   if (n == 2) f.insert("n2");
   if (n <= 2) f.insert("n_le2");
+  if (c.gi.family == 9) f.insert("textlike");
+  if (c.gi.family == 9 && n >= 65) f.insert("textlike_n65");
   if (c.gi.maxlen >= 128) f.insert("maxlen_ge128");
   if (c.gi.maxlcp >= 128) f.insert("lcp_ge128");
   if (c.S[n - 1].size() == 1) f.insert("last_len1");
